@@ -253,7 +253,7 @@ let split_n (s : string) (n : int) : string list =
 
 let rec run_op (h : hstate) (op : string) : string =
   (* `@t/OP`: the model is sequential - the thread name is ignored *)
-  if String.length op > 0 && op.[0] = '@' then
+  if String.length op > 0 && (op.[0] = '@' || op.[0] = '~') then
     (match String.index_opt op '/' with
      | Some i -> run_op h (String.sub op (i + 1) (String.length op - i - 1))
      | None -> "?UNSUPPORTED")
